@@ -40,8 +40,25 @@ type Contract struct {
 	Uses      []string // pure helper function contracts to instantiate (unused for now)
 	File      string
 	Line      int
+	CallAsserts []CallAssert // obligations at call sites of this function's body
+	GhostSets   []GhostSet   // function-local ghost flags set at call sites
+	CallAssumes []CallAssert // "assumecall callee: expr": assumed (not proved) at call sites; listed as an assumption in the evidence
+	LoadAsserts []CallAssert // "assertload Struct.field: expr": obligation where the function takes the address of / reads that field
 	Params    []string // for externals without SSA body: parameter names (recv first)
 	Ghost     map[string]string
+}
+
+// CallAssert: "assertcall callee[cond]: expr" — at every call to callee (where cond over the callee's
+// parameters holds) expr must hold; expr ranges over the function's parameters, source-level locals and ghost flags.
+type CallAssert struct {
+	Callee, Cond string
+	Clause       Clause
+}
+
+// GhostSet: "ghostset callee[cond] name" — the Boolean ghost flag name (initially false) becomes true at
+// every call to callee whose arguments satisfy cond.
+type GhostSet struct {
+	Callee, Cond, Name string
 }
 
 // SpecFn is a specification function written in the contract language.
@@ -53,6 +70,8 @@ type SpecFn struct {
 	Def     string // body expression (empty: uninterpreted)
 	Reads   []string
 	NoHeap  bool // recursive spec function that does not read the heap
+	Opaque  bool // non-recursive, kept as a symbol with a quantified, trigger-based definitional axiom
+	Rec     bool // recursion point: kept as an uninterpreted symbol and unfolded to a fixed depth; other spec functions are macros
 	File    string
 	Line    int
 }
@@ -169,6 +188,10 @@ func (cs *ContractSet) ParseFile(path, pkgPath string, ext bool) error {
 			cur = nil
 		case strings.HasPrefix(line, "def ") && curSpec != nil:
 			curSpec.Def = strings.TrimSpace(line[4:])
+		case line == "rec" && curSpec != nil:
+			curSpec.Rec = true
+		case line == "opaque" && curSpec != nil:
+			curSpec.Opaque = true
 		case strings.HasPrefix(line, "reads ") && curSpec != nil:
 			curSpec.Reads = strings.Fields(line[6:])
 			if line == "reads nothing" {
@@ -203,6 +226,49 @@ func (cs *ContractSet) ParseFile(path, pkgPath string, ext bool) error {
 					cur.Assigns = append(cur.Assigns, strings.TrimSpace(a))
 				}
 			}
+		case strings.HasPrefix(line, "assertcall "):
+			rest := strings.TrimSpace(line[11:])
+			i := strings.Index(rest, ":")
+			if i < 0 {
+				return fmt.Errorf("%s:%d: assertcall needs ':'", path, ln)
+			}
+			head, expr := strings.TrimSpace(rest[:i]), strings.TrimSpace(rest[i+1:])
+			// the first ':' may be inside [cond]; find the ':' after the closing bracket
+			if j := strings.Index(rest, "]"); j >= 0 && strings.Index(rest, "[") < i && j > i {
+				k := strings.Index(rest[j:], ":")
+				head, expr = strings.TrimSpace(rest[:j+1]), strings.TrimSpace(rest[j+k+1:])
+			}
+			ca := CallAssert{Callee: head, Clause: Clause{Text: expr, File: path, Line: ln}}
+			if b := strings.Index(head, "["); b >= 0 {
+				ca.Callee, ca.Cond = strings.TrimSpace(head[:b]), strings.TrimSuffix(head[b+1:], "]")
+			}
+			cur.CallAsserts = append(cur.CallAsserts, ca)
+		case strings.HasPrefix(line, "assumecall "):
+			rest := strings.TrimSpace(line[11:])
+			i := strings.Index(rest, ":")
+			if i < 0 {
+				return fmt.Errorf("%s:%d: assumecall needs ':'", path, ln)
+			}
+			cur.CallAssumes = append(cur.CallAssumes, CallAssert{Callee: strings.TrimSpace(rest[:i]), Clause: Clause{Text: strings.TrimSpace(rest[i+1:]), File: path, Line: ln}})
+		case strings.HasPrefix(line, "assertload "):
+			rest := strings.TrimSpace(line[11:])
+			i := strings.Index(rest, ":")
+			if i < 0 {
+				return fmt.Errorf("%s:%d: assertload needs ':'", path, ln)
+			}
+			cur.LoadAsserts = append(cur.LoadAsserts, CallAssert{Callee: strings.TrimSpace(rest[:i]), Clause: Clause{Text: strings.TrimSpace(rest[i+1:]), File: path, Line: ln}})
+		case strings.HasPrefix(line, "ghostset "):
+			rest := strings.TrimSpace(line[9:])
+			j := strings.LastIndex(rest, " ")
+			if j < 0 {
+				return fmt.Errorf("%s:%d: bad ghostset", path, ln)
+			}
+			head, name := strings.TrimSpace(rest[:j]), strings.TrimSpace(rest[j+1:])
+			gs := GhostSet{Callee: head, Name: name}
+			if b := strings.Index(head, "["); b >= 0 {
+				gs.Callee, gs.Cond = strings.TrimSpace(head[:b]), strings.TrimSuffix(head[b+1:], "]")
+			}
+			cur.GhostSets = append(cur.GhostSets, gs)
 		case loopHead.MatchString(line):
 			m := loopHead.FindStringSubmatch(line)
 			k, _ := strconv.Atoi(m[1])
